@@ -334,9 +334,12 @@ type sigReq struct {
 	WrongHash bool // sign a digest with one bit flipped
 	WrongCode bool // sign the digest of the script code WITHOUT honouring code separators
 	Empty     bool
-	Bare      bool // the signature is the hash-type byte alone
-	StripAny  bool // sign the script code with the copies of the signature that are NOT removed left out as well (not the specification)
-	CodeFrom  int  // > 0 (wrong signatures only): sign the script code that starts at this opcode index, as if a separator had been executed there
+	Bare      bool   // the signature is the hash-type byte alone
+	StripAny  bool   // sign the script code with the copies of the signature that are NOT removed left out as well (not the specification)
+	CodeFrom  int    // > 0 (wrong signatures only): sign the script code that starts at this opcode index, as if a separator had been executed there
+	FullLen   int    // > 0: a lax-encoded signature (R and / or S carry leading zero bytes, see Pad) of exactly this many bytes, hash type included (74..130)
+	Pad       int    // sigspec.PadInR / PadInS / PadInBoth
+	Raw       []byte // non-nil and non-empty: the stack item is these bytes, whatever they are (the last one is its hash type)
 }
 
 type sigOp struct {
@@ -419,6 +422,12 @@ func newBuild(r *common.Rand, kind string, flags uint32, nkeys int) *build {
 }
 
 func (b *build) addSig(q sigReq) int {
+	if len(q.Raw) > 0 {
+		q.HT = q.Raw[len(q.Raw)-1]
+	}
+	if q.FullLen > 110 {
+		q.Pad = sp.PadInBoth // keeps every run of zero bytes short (the Coq literals of the cases abbreviate runs of 48 equal bytes and more)
+	}
 	b.reqs = append(b.reqs, q)
 	b.sigs = append(b.sigs, nil)
 	return len(b.reqs) - 1
@@ -471,7 +480,9 @@ func (b *build) specDigest(o *sigOp, slot int, wrong bool) []byte {
 			at = 0
 		}
 	}
-	code := sp.SpecCode(script, at, b.legacyDigest(slot), strip, b.sigs, wrong && q.StripAny)
+	// a signature that is not made yet stands in the script with its final length: the form of its push depends on it
+	sizeOf := func(s int) int { return b.reqs[s].FullLen }
+	code := sp.SpecCodeSized(script, at, b.legacyDigest(slot), strip, b.sigs, wrong && q.StripAny, sizeOf)
 	h, err := sp.Digest(b.flags, b.tx, b.idx, code, b.sats, q.HT)
 	if err != nil {
 		panic("c06: digest: " + err.Error())
@@ -486,6 +497,8 @@ func (b *build) signAll() {
 		switch {
 		case q.Empty:
 			b.sigs[slot] = []byte{}
+		case len(q.Raw) > 0:
+			b.sigs[slot] = append([]byte{}, q.Raw...)
 		case q.Bare:
 			b.sigs[slot] = []byte{q.HT}
 		}
@@ -497,6 +510,9 @@ func (b *build) signAll() {
 			switch {
 			case q.Empty:
 				b.sigs[slot] = []byte{}
+				continue
+			case len(q.Raw) > 0:
+				b.sigs[slot] = append([]byte{}, q.Raw...)
 				continue
 			case q.Bare:
 				b.sigs[slot] = []byte{q.HT}
@@ -511,8 +527,16 @@ func (b *build) signAll() {
 			if q.Signer >= 0 {
 				d = b.keys[q.Signer].D
 			}
-			body := sp.SignShape(b.r, d, h, q.Shape)
-			if q.Shape == sp.SigGood && q.Signer >= 0 && !sp.Verify(b.keys[q.Signer].Enc(sp.PKCompressed), h, body, true) {
+			var body []byte
+			if q.FullLen > 0 {
+				body = sp.SignPadded(b.r, d, h, q.FullLen-1, q.Pad)
+				if q.Signer >= 0 && !(sp.NodeVerify(b.keys[q.Signer].Enc(sp.PKCompressed), h, body) && sp.Verify(b.keys[q.Signer].Enc(sp.PKCompressed), h, body, false)) {
+					panic("c06: the spec signer produced a padded signature the lax parsers reject")
+				}
+			} else {
+				body = sp.SignShape(b.r, d, h, q.Shape)
+			}
+			if q.FullLen == 0 && q.Shape == sp.SigGood && q.Signer >= 0 && !sp.Verify(b.keys[q.Signer].Enc(sp.PKCompressed), h, body, true) {
 				panic("c06: the spec signer produced a signature go-bk rejects")
 			}
 			b.sigs[slot] = append(body, q.HT)
@@ -837,6 +861,9 @@ func checksigCase(r *common.Rand, kind string, flags uint32, ht byte, q sigReq, 
 	}
 	b.ops = []sigOp{{script: 1, at: 1, slots: []int{slot}, keys: [][]byte{pk}, verify: verify}}
 	b.note = fmt.Sprintf("ht=%02x shape=%s pk=%s", ht, sp.SigNames[q.Shape], sp.PKNames[pkKind])
+	if len(q.Raw) > 0 {
+		b.note = fmt.Sprintf("signature item %x (%d bytes, hash type included) pk=%s", q.Raw, len(q.Raw), sp.PKNames[pkKind])
+	}
 	b.run()
 }
 
@@ -874,8 +901,11 @@ func familyCheckSig(r *common.Rand) {
 			checksigCase(r, "checksig", flags, mt(3), sigReq{Signer: 0, Empty: true}, fi%sp.NumPK, fi%7 == 0)
 			checksigCase(r, "checksig", flags, mt(4), sigReq{Signer: -1}, (fi/2)%2, false)
 			// the low-S boundary: S = n/2 is low, S = n/2 + 1 is not (neither verifies)
-			if flags&sp.FLowS != 0 {
+			// (quick: the two sides of the boundary alternate over the 64 flag sets with LOW_S)
+			if flags&sp.FLowS != 0 && (c.Thorough() || (sub>>3+sub&3+era)%2 == 0) {
 				checksigCase(r, "checksig-lows-boundary", flags, mt(5), sigReq{Signer: 0, Shape: sp.SigHalfS}, sp.PKCompressed, false)
+			}
+			if flags&sp.FLowS != 0 && (c.Thorough() || (sub>>3+sub&3+era)%2 == 1) {
 				checksigCase(r, "checksig-lows-boundary", flags, mt(6), sigReq{Signer: 0, Shape: sp.SigHalfSPlus1}, sp.PKCompressed, false)
 			}
 			// a conforming signature of the OTHER hash-type family (legacy under the FORKID flag: replay protection)
@@ -1055,22 +1085,24 @@ func familySeparators(r *common.Rand) {
 // assign[i] for signature i (script order): 0..n-1 = correct signature of key j; n = unrelated key;
 // n+1 = wrong digest; n+2 = empty.
 type msOpts struct {
-	verify  bool
-	dummy   []byte
-	pkKinds []int   // per key (default alternating compressed / uncompressed)
-	shapes  []int   // per signature
-	hts     []byte  // per signature
-	sepAt   int     // >0: an executed OP_CODESEPARATOR before lock opcode index sepAt-1
-	pre     []sp.Op // opcodes in front of the locking script
-	p2sh    bool
-	copies  bool // legacy: copies of the signatures inside the locking script
-	expect  string
-	nkRaw   []byte  // the key count as these bytes (a plain data push) instead of the small-integer opcode
-	nsRaw   []byte  // the same for the signature count
-	post    []sp.Op // opcodes after the operation (and its OP_1 when verify)
-	bare    []bool  // per signature: the signature is its hash-type byte alone
-	sigForm int     // push form of the signatures in the unlocking script (0: smallest)
-	tag     string  // codeTag of the case
+	verify   bool
+	dummy    []byte
+	pkKinds  []int   // per key (default alternating compressed / uncompressed)
+	shapes   []int   // per signature
+	hts      []byte  // per signature
+	sepAt    int     // >0: an executed OP_CODESEPARATOR before lock opcode index sepAt-1
+	pre      []sp.Op // opcodes in front of the locking script
+	p2sh     bool
+	copies   bool // legacy: copies of the signatures inside the locking script
+	expect   string
+	nkRaw    []byte   // the key count as these bytes (a plain data push) instead of the small-integer opcode
+	nsRaw    []byte   // the same for the signature count
+	post     []sp.Op  // opcodes after the operation (and its OP_1 when verify)
+	bare     []bool   // per signature: the signature is its hash-type byte alone
+	sigForm  int      // push form of the signatures in the unlocking script (0: smallest)
+	tag      string   // codeTag of the case
+	fullLens []int    // per signature: > 0 = a lax-encoded signature of this many bytes (hash type included)
+	raw      [][]byte // per signature: non-empty = the item is these bytes
 }
 
 func multisigCase(r *common.Rand, kind string, flags uint32, n int, assign []int, o msOpts) {
@@ -1105,6 +1137,12 @@ func multisigCase(r *common.Rand, kind string, flags uint32, n int, assign []int
 		}
 		if o.bare != nil && o.bare[i] {
 			q.Bare, q.Empty = true, false
+		}
+		if o.fullLens != nil && o.fullLens[i] > 0 && !q.Empty {
+			q.FullLen = o.fullLens[i]
+		}
+		if o.raw != nil && len(o.raw[i]) > 0 {
+			q.Raw, q.Empty, q.Bare = o.raw[i], false, false
 		}
 		slots = append(slots, b.addSig(q))
 	}
@@ -1163,6 +1201,9 @@ func multisigCase(r *common.Rand, kind string, flags uint32, n int, assign []int
 	}
 	b.ops = []sigOp{{script: si, at: at, slots: slots, keys: keys, multi: true, verify: o.verify, dummy: dummy, expect: o.expect}}
 	b.note = fmt.Sprintf("%d-of-%d assign=%v", m, n, assign)
+	if o.fullLens != nil {
+		b.note += fmt.Sprintf(" signature lengths=%v (0: DER)", o.fullLens)
+	}
 	b.run()
 }
 
@@ -1468,8 +1509,11 @@ func familyEmptySigKey(r *common.Rand) {
 	kinds := []int{sp.PKHybrid, sp.PKShort, sp.PKLong, sp.PKEmpty, sp.PKOneZeroByte, sp.PKBadPrefix, sp.PKPrefix05Long,
 		sp.PKHybridWrongParity, sp.PKCompressed, sp.PKUncompressed, sp.PKNotOnCurve}
 	for fi, f := range flagSets {
-		for _, pk := range kinds {
+		for ki, pk := range kinds {
 			for v := 0; v < 2; v++ {
+				if !c.Thorough() && (fi+ki)%2 != v {
+					continue // quick: OP_CHECKSIG and OP_CHECKSIGVERIFY alternate over (flag set, key encoding)
+				}
 				checksigCase(r, "empty-sig-key", f, matchingType(f, fi), sigReq{Signer: 0, Empty: true}, pk, v == 1)
 			}
 		}
@@ -1741,6 +1785,141 @@ func familyScriptConstants(r *common.Rand) {
 	}
 }
 
+// familyLongSignatures: without DERSIG / STRICTENC / LOW_S a signature may carry leading zero bytes in R or S. With its
+// hash type it is then 74, 75, 76, ... bytes long: its push is a length byte up to 75 bytes and OP_PUSHDATA1 <len> from
+// 76 bytes on. The original digest removes exactly THAT push from the script code, whatever its form, and no other
+// push of the same bytes (76 = 0x4c, 77 = 0x4d and 78 = 0x4e are also the values of OP_PUSHDATA1 / 2 / 4). Every case
+// carries a copy of the signature inside the script code; the signature is made over the code without it, so it is
+// valid exactly when the specification removes the copy.
+func familyLongSignatures(r *common.Rand) {
+	lens := []int{74, 75, 76, 77, 78, 79, 97, 130}
+	forms := []struct {
+		name      string
+		pre, post []byte
+		form      int
+	}{
+		{"smallest-push-copy", nil, nil, 0},
+		{"pushdata1-copy", nil, nil, 1}, // the smallest push from 76 bytes on
+		{"pushdata2-copy", nil, nil, 2},
+		{"pushdata4-copy", nil, nil, 4},
+		{"suffixed-copy", nil, []byte{0xee}, 0},
+		{"prefixed-copy", []byte{0x00}, nil, 0},
+	}
+	flagSets := []uint32{0, sp.FNullFail, sp.FGenesis, sp.FStrictMultiSig | sp.FNullFail | sp.FGenesis}
+	drop := sp.O(0x75)
+	n := 0
+	one := func(kind string, flags uint32, ht byte, L int, pad int, cp func(slot int) sp.Op, opKind int) {
+		b := newBuild(r, kind, flags, 2)
+		slot := b.addSig(sigReq{Signer: opKind % 2, HT: ht, FullLen: L, Pad: pad, StripAny: true})
+		pk0, pk1 := b.keys[0].Enc(n%2), b.keys[1].Enc((n/2)%2)
+		pk := [][]byte{pk0, pk1}[opKind%2]
+		switch opKind {
+		case 0, 1: // <sig> | <copy> DROP <pk> CHECKSIG / CHECKSIGVERIFY 1
+			b.scripts[0] = []sp.Op{sp.SigSlot(slot, nil, nil, 0)}
+			b.scripts[1] = []sp.Op{cp(slot), drop, sp.P(pk), sp.O(byte(0xac + opKind))}
+			if opKind == 1 {
+				b.scripts[1] = append(b.scripts[1], sp.O(0x51))
+			}
+			b.ops = []sigOp{{script: 1, at: 3, slots: []int{slot}, keys: [][]byte{pk}, verify: opKind == 1}}
+		case 2: // 0 <sig> | <copy> DROP 1 <pk> 1 CHECKMULTISIG
+			b.scripts[0] = []sp.Op{sp.O(0x00), sp.SigSlot(slot, nil, nil, 0)}
+			b.scripts[1] = []sp.Op{cp(slot), drop, sp.Num(1), sp.P(pk), sp.Num(1), sp.O(0xae)}
+			b.ops = []sigOp{{script: 1, at: 5, slots: []int{slot}, keys: [][]byte{pk}, multi: true, dummy: []byte{}}}
+		default: // 0 <sig> | 1 <pk0> <pk1> 2 CHECKMULTISIGVERIFY 1 <copy> DROP  (the copy after the operation, still in the script code)
+			b.scripts[0] = []sp.Op{sp.O(0x00), sp.SigSlot(slot, nil, nil, 0)}
+			b.scripts[1] = []sp.Op{sp.Num(1), sp.P(pk0), sp.P(pk1), sp.Num(2), sp.O(0xaf), sp.O(0x51), cp(slot), drop}
+			b.ops = []sigOp{{script: 1, at: 4, slots: []int{slot}, keys: [][]byte{pk0, pk1}, multi: true, verify: true, dummy: []byte{}}}
+		}
+		b.note = fmt.Sprintf("signature of %d bytes with its hash type %02x (zero bytes in front of %s)", L, ht, []string{"R", "S", "R and S"}[b.reqs[slot].Pad])
+		b.run()
+	}
+	per := 2
+	if c.Thorough() {
+		per = 8
+	}
+	for li, L := range lens {
+		for fi, fm := range forms {
+			fm := fm
+			for j := 0; j < per; j++ {
+				n++
+				opKind := (li + fi + 2*j) % 4 // quick: OP_CHECKSIG and 1-of-1, or OP_CHECKSIGVERIFY and 1-of-2 VERIFY, alternating
+				if c.Thorough() {
+					opKind = j % 4
+				}
+				// the two hash types of a (length, form) pair are neighbours in the list: at most one of them is SINGLE
+				// (whose digest, without a matching output, does not depend on the script code)
+				one("long-signature/"+fm.name, flagSets[(li+fi/2+j+j/4)%4], legacyTypes[(li+fi+j)%6], L, b2i(n%5 == 0),
+					func(slot int) sp.Op { return sp.SigSlot(slot, fm.pre, fm.post, fm.form) }, opKind)
+			}
+		}
+	}
+	// under the FORKID digest nothing is removed, whatever the length and the push form
+	for i, L := range []int{76, 77, 78} {
+		for opKind := 0; opKind < 3; opKind += 2 {
+			n++
+			one("long-signature/forkid-signed-without-own-push", []uint32{sp.FForkID, sp.FForkID | sp.FGenesis, sp.FForkID | sp.FNullFail}[i], forkTypes[n%6], L, sp.PadInR,
+				func(slot int) sp.Op { return sp.SigSlot(slot, nil, nil, 0) }, opKind)
+		}
+	}
+	// several signatures of one OP_CHECKMULTISIG, copies of all of them in the script code, long and DER-sized mixed:
+	// the pushes of ALL of them are removed before any of them is hashed
+	for fi, f := range []uint32{0, sp.FGenesis | sp.FNullFail, sp.FStrictMultiSig} {
+		multisigCase(r, "long-signature/multisig-copies", f, 2, []int{0, 1}, msOpts{copies: true, fullLens: []int{77, 78}, verify: fi == 1})
+		multisigCase(r, "long-signature/multisig-copies", f, 2, []int{0, 1}, msOpts{copies: true, fullLens: []int{0, 76 + fi}})
+		multisigCase(r, "long-signature/multisig-copies", f, 3, []int{0, 2}, msOpts{copies: true, fullLens: []int{130 - fi, 0}, hts: []byte{0x83, 0x02}})
+	}
+	// with a DER flag the long signature is an encoding error - once it is examined, i.e. after the DER-sized one
+	// behind it has verified over the script code without BOTH pushes (otherwise the result is false, no error)
+	for fi, f := range []uint32{sp.FDERSig, sp.FStrictEnc, sp.FLowS, sp.FDERSig | sp.FGenesis, sp.FStrictEnc | sp.FLowS | sp.FGenesis | sp.FStrictMultiSig} {
+		for _, L := range []int{76, 77, 78, 100} {
+			if !c.Thorough() && (fi+L)%2 == 1 {
+				continue
+			}
+			multisigCase(r, "long-signature/multisig-copies-der-flag", f, 2, []int{0, 1}, msOpts{copies: true, fullLens: []int{L, 0}, hts: []byte{legacyTypes[(fi+L)%6], legacyTypes[fi]}})
+		}
+	}
+}
+
+// familyShortSignatures: the null-fail rule asks whether the signature ITEM is empty - hash type included. An item
+// that is its hash-type byte alone (or that byte after one or two others) is not empty, although what is left of it
+// once the hash type is taken off may be; without a DER flag nothing rejects it earlier, so a failed check under
+// NULLFAIL is an error, and without NULLFAIL a false result. With keys that parse, keys that do not, for
+// OP_CHECKSIG(VERIFY) and OP_CHECKMULTISIG, under every subset of NULLDUMMY / NULLFAIL / FORKID in both eras and
+// under the DER flags (where the encoding rule comes first).
+func familyShortSignatures(r *common.Rand) {
+	items := [][]byte{{0x01}, {0x41}, {0x83}, {0xc2}, {0x00}, {0x50}, {0x30, 0x01}, {0x00, 0x41}, {0x30, 0x00, 0x02}}
+	var flagSets []uint32
+	for sub := 0; sub < 16; sub++ {
+		var f uint32
+		for bit, fl := range []uint32{sp.FNullFail, sp.FForkID, sp.FGenesis, sp.FStrictMultiSig} {
+			if sub>>uint(bit)&1 == 1 {
+				f |= fl
+			}
+		}
+		flagSets = append(flagSets, f)
+	}
+	flagSets = append(flagSets, sp.FDERSig|sp.FNullFail, sp.FStrictEnc|sp.FNullFail, sp.FLowS|sp.FNullFail|sp.FGenesis, mandatory)
+	keyKinds := []int{sp.PKCompressed, sp.PKNotOnCurve, sp.PKUncompressed, sp.PKHybrid, sp.PKEmpty, sp.PKCompressed, sp.PKBadPrefix}
+	n := 0
+	for _, f := range flagSets {
+		for _, it := range items {
+			n++
+			checksigCase(r, "short-signature", f, 0, sigReq{Signer: 0, Raw: it}, keyKinds[n%len(keyKinds)], n%4 == 0)
+			if !c.Thorough() && n%2 == 1 {
+				continue
+			}
+			switch (n / 2) % 3 {
+			case 0: // the only signature
+				multisigCase(r, "short-signature/multisig", f, 1, []int{0}, msOpts{raw: [][]byte{it}, pkKinds: []int{keyKinds[(n/6)%len(keyKinds)]}, verify: n%8 == 0})
+			case 1: // examined after a signature that verified
+				multisigCase(r, "short-signature/multisig", f, 2, []int{0, 1}, msOpts{raw: [][]byte{it, nil}})
+			default: // examined first; the good one behind it is never looked at
+				multisigCase(r, "short-signature/multisig", f, 2, []int{0, 1}, msOpts{raw: [][]byte{nil, it}})
+			}
+		}
+	}
+}
+
 func main() {
 	c = common.Parse("C06")
 	c.SetHeader(header)
@@ -1761,6 +1940,8 @@ func main() {
 	familyUnparsableSigKeys(r.Fork())
 	familyKnownDeviations(r.Fork())
 	familyScriptConstants(r.Fork())
-	c.Stats.Rule = "seeded secp256k1 keys; spending transactions of 1-3 inputs x 0-3 outputs with every input index; signatures by an independent spec signer (script code walked per the specification, digest, ECDSA with chosen nonce). Families: OP_CHECKSIG(VERIFY) under all 2^6 subsets of {STRICTENC, DERSIG, LOW_S, NULLDUMMY, NULLFAIL, FORKID} x both eras with conforming / high-S / hybrid-key / empty / wrong-key signatures always and rotating 15 DER shapes x 8 key encodings x 17 hash types (6 FORKID, 6 legacy, 5 undefined); OP_CODESEPARATOR at index 0, between pushes, after the operation, doubled, in taken / untaken IF and ELSE branches, in the unlocking script, each with a signature over the specified code and one over the code that ignores separators; m-of-n multisig, every arrangement of correct-for-key-j / wrong-key / wrong-digest / empty signatures exhaustively for n <= 3 (thorough: n <= 4) and sampled above (thorough: up to 20 and 21); 15 multisig scenarios (null dummy, null fail, malformed elements at examined and unexamined positions) under every flag subset; legacy signature removal (FindAndDelete of the exact push) with smallest-form / PUSHDATA1-2-4 / embedded / prefixed / suffixed copies inside and outside the script code, one-byte signatures pushed as 01 05 next to OP_5, empty signatures with OP_0 and separators in the script code, FORKID and original-digest signatures mixed in one multisig with separators after it; key-count and operation-count limits, P2SH, malformed counts, 4- / 5- / 9-byte counts in both eras with and without MINIMALDATA; R or S = n-1, n, n+1, n+5 and a 40-byte R under LOW_S with and without NULLFAIL; empty signature with 11 key encodings under 8 flag sets for OP_CHECKSIG(VERIFY); unlocking scripts ending <sig> ... OP_CODESEPARATOR OP_RETURN after genesis (no stale separator offset in the locking script); a signature the encoding check passes and go-bk cannot parse (R = 0) against malformed keys at every position; the three deviations kept as known findings (65-byte key with prefix 05, lax DER without DER flags, opcodes after a top-level OP_RETURN in the original digest), where the expected verdict is the node's (key validity by prefix and length, ecdsa_signature_parse_der_lax re-implemented in harness/sigspec); 22 value-transforming opcode snippets run on constants pushed from the locking script (and on an operand from the unlocking script) before <pk> OP_CHECKSIG: the script code stays the spent output's script. distinct = distinct (scripts, flags, transaction, index, value); non-trivial = at least one go-bk oracle query was needed"
+	familyLongSignatures(r.Fork())
+	familyShortSignatures(r.Fork())
+	c.Stats.Rule = "seeded secp256k1 keys; spending transactions of 1-3 inputs x 0-3 outputs with every input index; signatures by an independent spec signer (script code walked per the specification, digest, ECDSA with chosen nonce). Families: OP_CHECKSIG(VERIFY) under all 2^6 subsets of {STRICTENC, DERSIG, LOW_S, NULLDUMMY, NULLFAIL, FORKID} x both eras with conforming / high-S / hybrid-key / empty / wrong-key signatures always and rotating 15 DER shapes x 8 key encodings x 17 hash types (6 FORKID, 6 legacy, 5 undefined); OP_CODESEPARATOR at index 0, between pushes, after the operation, doubled, in taken / untaken IF and ELSE branches, in the unlocking script, each with a signature over the specified code and one over the code that ignores separators; m-of-n multisig, every arrangement of correct-for-key-j / wrong-key / wrong-digest / empty signatures exhaustively for n <= 3 (thorough: n <= 4) and sampled above (thorough: up to 20 and 21); 15 multisig scenarios (null dummy, null fail, malformed elements at examined and unexamined positions) under every flag subset; legacy signature removal (FindAndDelete of the exact push) with smallest-form / PUSHDATA1-2-4 / embedded / prefixed / suffixed copies inside and outside the script code, one-byte signatures pushed as 01 05 next to OP_5, empty signatures with OP_0 and separators in the script code, FORKID and original-digest signatures mixed in one multisig with separators after it; key-count and operation-count limits, P2SH, malformed counts, 4- / 5- / 9-byte counts in both eras with and without MINIMALDATA; R or S = n-1, n, n+1, n+5 and a 40-byte R under LOW_S with and without NULLFAIL; empty signature with 11 key encodings under 8 flag sets for OP_CHECKSIG(VERIFY); unlocking scripts ending <sig> ... OP_CODESEPARATOR OP_RETURN after genesis (no stale separator offset in the locking script); a signature the encoding check passes and go-bk cannot parse (R = 0) against malformed keys at every position; the three deviations kept as known findings (65-byte key with prefix 05, lax DER without DER flags, opcodes after a top-level OP_RETURN in the original digest), where the expected verdict is the node's (key validity by prefix and length, ecdsa_signature_parse_der_lax re-implemented in harness/sigspec); 22 value-transforming opcode snippets run on constants pushed from the locking script (and on an operand from the unlocking script) before <pk> OP_CHECKSIG: the script code stays the spent output's script; lax-encoded valid signatures (leading zero bytes in R and / or S) of 74, 75, 76, 77, 78, 79, 97 and 130 bytes with their hash type - the push of the signature is a length byte up to 75 bytes and OP_PUSHDATA1 from 76 on - with a copy inside the script code in 6 forms (smallest push, OP_PUSHDATA1 / 2 / 4, one byte appended / prepended), signed over the code without the copy, so valid exactly when the specification removes it, for OP_CHECKSIG(VERIFY), 1-of-1 and 1-of-2 OP_CHECKMULTISIG(VERIFY), without the DER flags; the same under the FORKID digest (nothing removed); multisigs with copies of a long and a DER-sized signature, also under each DER flag, where the long one is an encoding error once it is reached; signature items of 1, 2 and 3 bytes (the hash-type byte alone: 01 41 83 c2 00 50; 30 01; 00 41; 30 00 02) under all 16 subsets of {NULLDUMMY, NULLFAIL, FORKID, genesis} and 4 flag sets with a DER flag, 7 key encodings rotating, OP_CHECKSIG(VERIFY) and as the only / the first examined / the second examined signature of an OP_CHECKMULTISIG(VERIFY): under NULLFAIL a failed check of a non-empty item is an error. distinct = distinct (scripts, flags, transaction, index, value); non-trivial = at least one go-bk oracle query was needed"
 	c.Finish()
 }
